@@ -1,0 +1,49 @@
+//go:build verif
+
+package annotations
+
+// Contracts checked by /verif/govc (comment-only file; build tag verif).
+
+// ---------------------------------------------------------------------------
+// Mapper: the value a key resolves to — first registered path config of the
+// key, else the default, else empty.
+
+//@ spec func mapperHas(c *Mapper, key string) bool = in(key, c.configByKey) && len(c.configByKey[key]) > 0
+//@ spec func mapperValue(c *Mapper, key string) string =
+//@     mapperHas(c, key) ? c.configByKey[key][0].value.Value : (in(key, c.annDefaults) ? c.annDefaults[key] : "")
+
+// representation invariant of a Mapper: registered path configs are well formed
+//@ spec func mapperWF(c *Mapper) bool = c != nil && forall k string :: in(k, c.configByKey) ==>
+//@     forall i int :: 0 <= i && i < len(c.configByKey[k]) ==> c.configByKey[k][i] != nil && c.configByKey[k][i].value != nil
+
+//@ func (*Mapper).Get
+//@   props C06 C09
+//@   requires wf: mapperWF(c)
+//@   modifies nothing
+//@   ensures nonnil: result != nil
+//@   ensures value:  result.Value == mapperValue(c, key)
+//@   ensures first:  mapperHas(c, key) ==> result == c.configByKey[key][0].value
+//@   ensures global: !mapperHas(c, key) ==> result.Source == nil
+//@   loop 1 invariant own: cap(sources) == 0 || fresh(sources)
+//@ end
+
+// ---------------------------------------------------------------------------
+// C09 — allow/deny keys
+
+//@ func (*updater).validateAllowDeny
+//@   props C09
+//@   requires d != nil && mapperWF(d.mapper)
+//@   modifies nothing
+//@   ensures allow: result == (lower(mapperValue(d.mapper, key)) == "allow")
+//@ end
+
+//@ func (*updater).buildGlobalDynamic
+//@   props C09
+//@   requires d != nil && mapperWF(d.mapper) && c.options != nil && c.options.DynamicConfig != nil
+//@   modifies c.options.DynamicConfig.*
+//@   ensures ca:     c.options.DynamicConfig.CrossNamespaceSecretCA == (old(c.options.DynamicConfig.StaticCrossNamespaceSecrets) || lower(mapperValue(d.mapper, "cross-namespace-secrets-ca")) == "allow")
+//@   ensures crt:    c.options.DynamicConfig.CrossNamespaceSecretCertificate == (old(c.options.DynamicConfig.StaticCrossNamespaceSecrets) || lower(mapperValue(d.mapper, "cross-namespace-secrets-crt")) == "allow")
+//@   ensures passwd: c.options.DynamicConfig.CrossNamespaceSecretPasswd == (old(c.options.DynamicConfig.StaticCrossNamespaceSecrets) || lower(mapperValue(d.mapper, "cross-namespace-secrets-passwd")) == "allow")
+//@   ensures svc:    c.options.DynamicConfig.CrossNamespaceServices == (lower(mapperValue(d.mapper, "cross-namespace-services")) == "allow")
+//@   ensures static: c.options.DynamicConfig.StaticCrossNamespaceSecrets == old(c.options.DynamicConfig.StaticCrossNamespaceSecrets)
+//@ end
